@@ -45,8 +45,8 @@ _TAGS = ['TagA', 'TagB', 'TagC', 'TagX']
 def strategy_(draw, tier):
   recipe = draw(dags.dag(
       max_nodes=10, min_nodes=3, bts=('Config', 'Config', 'Partial'), tags=True,
-      kinds=['B', 'B', 'list', 'list', 'tuple', 'dict', 'dict', 'nt', 'Bpos', 'Bmut', 'Bpo', 'set', 'holder'],
-      fns=['things:f2', 'things:h1', 'things:Base', 'things:LeafCls'], root_kinds=['B', 'Bpos', 'Bpo'],
+      kinds=['B', 'B', 'list', 'list', 'tuple', 'dict', 'dict', 'nt', 'Bpos', 'Bmut', 'Bpo', 'set', 'holder', 'Bdictcfg'],
+      fns=['things:f2', 'things:h1', 'things:Base', 'things:LeafCls'], root_kinds=['B', 'Bpos', 'Bpo', 'Bdictcfg'],
       p_alias=0.8, allow_copyof=False))
   op = draw(st.sampled_from(DEEP + SHALLOW))
   edits = []
